@@ -113,8 +113,8 @@ Definition peek_token (n : nat) (st : state) : option mtok * state :=
   let st' := pull (S n - length (unp st)) st in
   (last (map Some (unp st')) None, st').
 
-(* layout.rs:148-180; [fuel] bounds the look-ahead (the Rust loop does not terminate on
-   `#[` .. EOF inside a rec group: EOF is produced forever); None = out of fuel *)
+(* layout.rs:148-183; [fuel] bounds the look-ahead (None = out of fuel; since the EOF arm
+   :173-175 the Rust loop stops at the end of the input at the latest) *)
 Fixpoint scan_continue (fuel : nat) (i : nat) (in_attr : bool) (expected : tk) (first : mtok) (st : state)
   : option (bool * state) :=
   match fuel with
@@ -129,6 +129,7 @@ Fixpoint scan_continue (fuel : nat) (i : nat) (in_attr : bool) (expected : tk) (
                | TAttributeOpen => scan_continue f (S i) true expected first st1
                | TDocComment => scan_continue f (S i) in_attr expected first st1
                | TRBracket => scan_continue f (S i) false expected first st1
+               | TEOF => Some (false, st1)       (* :173-175 *)
                | _ => if in_attr then scan_continue f (S i) in_attr expected first st1
                       else Some (false, st1)
                end
